@@ -560,6 +560,9 @@ class _ChainedRunnerIterator(Iterable[_ValueT]):
         with_result=self._with_result,
         with_agg_state=self._with_agg,
         with_agg_result=self._with_agg_result,
+        # Only its truthiness is used: whether the aggregates are returned at
+        # the end of the iteration.
+        state=self._with_agg,
     )
 
 
